@@ -17,7 +17,10 @@ use crate::h2peer::H2Peer;
 use crate::kit::*;
 use crate::peers::*;
 
-pub const CLUSTERS: [&str; 3] = ["h1", "h2a", "h2b"];
+/// "h2d": h2c backend of the full-duplex schedules - wide windows (only the socket ever blocks sozu) and a small
+/// SO_RCVBUF set on the listener, so that a backend that stops reading really blocks sozu's write
+pub const CLUSTERS: [&str; 4] = ["h1", "h2a", "h2b", "h2d"];
+pub const DUPLEX_RCVBUF: usize = 128 * 1024;
 
 // ------------------------------------------------------------------------------------------------
 // park snapshots (hook mux_ready_exit): the last snapshot of every session, and a projection of every
@@ -33,6 +36,10 @@ pub struct Parks {
     pub budget: std::collections::HashSet<String>,
     /// client address -> the last snapshot of that session that showed the head-of-line cycle
     pub hol: std::collections::HashMap<String, (u64, String, String, String)>,
+    /// snapshots showing an HTTP/2 connection with a stream frame half-written (`ew` = a stream) and WINDOW_UPDATEs
+    /// queued behind it / an answer deferred in the zero buffer with the reads parked (coverage of the full-duplex schedules)
+    pub half_wu: u64,
+    pub half_zero: u64,
 }
 pub static PARKS: Mutex<Option<Parks>> = Mutex::new(None);
 
@@ -86,9 +93,12 @@ pub fn project_park(front: &str, backs: &str, streams: &str) -> Vec<Value> {
             let closing = h2 && matches!(st, "GoAway" | "Error");
             // the connection-wide read is parked on a stream without buffer room (open finding HolBlocking)
             let rparked = h2 && int & READABLE == 0 && kvi(ep, "er") >= 0;
+            // the zero (control-frame) buffer is marked for writing although this stream's frame is only partly on the
+            // wire: whatever is flushed next lands inside that frame (H2Wire!P_Markers: expect = "zero" => curf = 0)
+            let halfzero = h2 && kvi(ep, "ew") == -1 && o > 0 && !closing;
             out.push(json!({"gid": gid, "dir": dir_name(dir as u8), "h2": h2, "wint": int & WRITABLE != 0, "wev": ev & WRITABLE != 0, "rint": int & READABLE != 0,
                 "winblocked": winblocked, "blocks": blocks, "out": o, "win": win, "cwin": cwin, "ep": kvi(ep, "tok"), "front": ftok, "tls": kvi(ep, "tls") != 0,
-                "dead": ev & 12 != 0, "handshake": handshake, "closing": closing, "rparked": rparked, "st": st}));
+                "dead": ev & 12 != 0, "handshake": handshake, "closing": closing, "rparked": rparked, "halfzero": halfzero, "ew": kvi(ep, "ew"), "st": st}));
         }
     }
     out
@@ -96,7 +106,7 @@ pub fn project_park(front: &str, backs: &str, streams: &str) -> Vec<Value> {
 
 pub fn install_park_sink(path: Option<&str>) {
     let out = path.map(|p| std::io::BufWriter::new(std::fs::File::create(p).expect("parks file")));
-    *PARKS.lock().unwrap() = Some(Parks { last: Default::default(), seq: 0, out, written: 0, distinct: Default::default(), budget: Default::default(), hol: Default::default() });
+    *PARKS.lock().unwrap() = Some(Parks { last: Default::default(), seq: 0, out, written: 0, distinct: Default::default(), budget: Default::default(), hol: Default::default(), half_wu: 0, half_zero: 0 });
     sozu_lib::verif::install(Box::new(|e| {
         if e.kind == "mux_loop_budget" {
             let peer = e.strs.iter().find(|(n, _)| *n == "peer").map(|(_, v)| v.clone()).unwrap_or_default();
@@ -115,11 +125,21 @@ pub fn install_park_sink(path: Option<&str>) {
         if let Some(p) = g.as_mut() {
             p.seq += 1;
             let seq = p.seq;
+            for ep in std::iter::once(front.as_str()).chain(backs.split(';')) {
+                if kv(ep, "proto") == Some("h2") && kvi(ep, "ew") >= 0 {
+                    if kvi(ep, "wu") > 0 {
+                        p.half_wu += 1;
+                    }
+                    if kvi(ep, "zero") > 0 && kvi(ep, "int") & 1 == 0 {
+                        p.half_zero += 1;
+                    }
+                }
+            }
             if p.out.is_some() {
                 let recs = project_park(&front, &backs, &streams);
                 if !recs.is_empty() {
                     // identical projections (up to identities and counts) are written once
-                    let sig: Vec<String> = recs.iter().map(|r| format!("{}{}{}{}{}{}{}{}{}{}", r["dir"], r["h2"], r["wint"], r["wev"], r["rint"], r["winblocked"], r["dead"], r["handshake"], r["closing"], r["rparked"])).collect();
+                    let sig: Vec<String> = recs.iter().map(|r| format!("{}{}{}{}{}{}{}{}{}{}", r["dir"], r["h2"], r["wint"], r["wev"], r["rint"], r["winblocked"], r["dead"], r["handshake"], r["closing"], r["rparked"])).chain(recs.iter().filter(|r| r["halfzero"] == true).map(|_| "halfzero".to_string())).collect();
                     let h = mix(sig.join("|").bytes().fold(0u64, |a, b| a.wrapping_mul(131).wrapping_add(b as u64)));
                     if p.distinct.insert(h) || p.written < 300 || seq % 97 == 0 {
                         use std::io::Write;
@@ -175,6 +195,9 @@ pub fn hol_cycle(front: &str, backs: &str, streams: &str) -> bool {
 }
 pub fn budget_hit(peer: &str) -> bool {
     PARKS.lock().unwrap().as_ref().map(|p| p.budget.contains(peer)).unwrap_or(false)
+}
+pub fn half_frame_counts() -> (u64, u64) {
+    PARKS.lock().unwrap().as_ref().map(|p| (p.half_wu, p.half_zero)).unwrap_or((0, 0))
 }
 pub fn park_counts() -> (u64, u64, usize) {
     let mut g = PARKS.lock().unwrap();
@@ -323,6 +346,9 @@ impl Rig {
             let id = format!("c01-{c}");
             let back = free_addr();
             let listener = TcpListener::bind(back).map_err(|e| format!("bind backend: {e}"))?;
+            if i == 3 {
+                set_sockbuf(listener.as_raw_fd(), Some(DUPLEX_RCVBUF), None);
+            }
             let cl = Cluster { cluster_id: id.clone(), http2: if i == 0 { None } else { Some(true) }, ..Default::default() };
             let r1 = w.request(RequestType::AddCluster(cl), t);
             let r2 = w.request(RequestType::AddHttpFrontend(Worker::http_frontend(&id, http, "localhost", &format!("/{c}/"))), t);
@@ -334,7 +360,8 @@ impl Rig {
             let h2 = match i {
                 0 => None,
                 1 => Some((65535u32, 16384u32, 1 << 20)),
-                _ => Some((20000u32, 16384u32, 65535u32)),
+                2 => Some((20000u32, 16384u32, 65535u32)),
+                _ => Some((1u32 << 30, 16384u32, 1u32 << 30)),
             };
             serve_backend(listener, sh.clone(), h2);
         }
@@ -379,7 +406,7 @@ impl Rig {
         let plan = Arc::new(plan);
         let run = plan.run;
         self.sh.reg.lock().unwrap().insert(run, plan.clone());
-        let cluster = if !plan.back_h2 { "h1" } else if plan.back_variant == 0 { "h2a" } else { "h2b" };
+        let cluster = if !plan.back_h2 { "h1" } else if plan.back_variant == 0 { "h2a" } else if plan.back_variant == 2 { "h2d" } else { "h2b" };
         let kind = format!("{}->{}", if plan.front_h2 { "h2" } else { "h1" }, if plan.back_h2 { "h2c" } else { "h1" });
         let mut error: Option<String> = None;
         let mut outcome = Outcome::Closed;
@@ -395,9 +422,9 @@ impl Rig {
                     if io.alpn().as_deref() != Some(b"h2".as_slice()) {
                         error = Some("ALPN did not select h2".into());
                     } else {
-                        let cw = if mix(plan.seed ^ 0xc0) % 3 == 0 { 65535 } else { 1 << 20 };
+                        let cw = if plan.client_hold.is_some() { 1 << 30 } else if mix(plan.seed ^ 0xc0) % 3 == 0 { 65535 } else { 1 << 20 };
                         let mut m = H2Peer::client(self.sh.clone(), plan.clone(), cluster, cw);
-                        if mix(plan.seed ^ 0x91) % 3 == 0 {
+                        if mix(plan.seed ^ 0x91) % 3 == 0 && plan.ping_every == 0 {
                             m.ping_every = 20_000 + mix(plan.seed ^ 0x92) % 60_000;
                         }
                         outcome = run_conn(&mut io, &mut m, self.sh.mon.clone());
@@ -467,7 +494,10 @@ impl Rig {
                 }
                 bytes += sev.iter().filter(|e| e["k"] == "sent").map(|e| e["len"].as_u64().unwrap_or(0)).sum::<u64>();
                 classes.push(format!("{kind}/{}/{:?}/{}/{}", dir_name(d as u8), mp.framing, size_class(mp.size, self.buffer_size), rp.rdelay_us > 0 || rp.h2_window < 65535));
-                let hdr = json!({"ev":"msg","run":run,"s":sp.idx,"d":dir_name(d as u8),"ns":sev.len(),"nr":rev.len(),"pair":kind,"nstreams":plan.streams.len(),
+                // full-duplex runs: no sender of the plan ever gives up and the plan is built so that the harness peers never give
+                // up by themselves either (Relay with Aborts = FALSE): a sender that is cut was cut by sozu
+                let no_aborts = (plan.client_hold.is_some() || plan.backend_hold.is_some()) && plan.streams.iter().all(|s| s.req.abort_at.is_none() && s.resp.abort_at.is_none());
+                let hdr = json!({"ev":"msg","run":run,"s":sp.idx,"d":dir_name(d as u8),"ns":sev.len(),"nr":rev.len(),"pair":kind,"nstreams":plan.streams.len(),"no_aborts":no_aborts,
                     "companion_aborted":companion_aborted,"park_hol":park_hol,"budget_kill":budget_kill,"budget_hook":budget_hook,"frames":frames,"park":park.as_ref().map(|p| format!("{} || {} || {}", p["front"].as_str().unwrap_or(""), p["backs"].as_str().unwrap_or(""), p["streams"].as_str().unwrap_or(""))).unwrap_or_default(),"msg":msg_json(mp),"reader":read_json(rp),"cluster":cluster,"seed":plan.seed.to_string()});
                 msgs.push((hdr, sev, rev));
             }
@@ -576,15 +606,66 @@ pub fn make_plan(run: u64, seed: u64, k: usize, b: u64, big: bool, aborts: bool)
         }
         let backend_read = read_plan(&mut rng, req.size);
         let client_read = read_plan(&mut rng, resp.size);
-        streams.push(StreamPlan { idx: i as u32, req, resp, backend_read, client_read });
+        streams.push(StreamPlan { idx: i as u32, req, resp, backend_read, client_read, early_resp: false });
     }
     let second_wave = front_h2 && rng.chance(1, 2);
-    let mut p = RunPlan { run, seed, front_h2, back_h2, back_variant: rng.below(2) as u8, second_wave, streams };
+    let mut p = RunPlan { run, seed, front_h2, back_h2, back_variant: rng.below(2) as u8, second_wave, streams, client_hold: None, backend_hold: None, ping_every: 0 };
     if aborts && rng.chance(1, 10) {
         let i = rng.below(p.streams.len() as u64) as usize;
         let m = if rng.chance(1, 2) { &mut p.streams[i].req } else { &mut p.streams[i].resp };
         if m.size > 1 {
             m.abort_at = Some(rng.below(m.size - 1) + 1);
+        }
+    }
+    fix_plan(&mut p);
+    p
+}
+
+/// FULL-DUPLEX schedules: position-coded bodies move in both directions at once on ONE HTTP/2 connection whose peer
+/// stops reading its socket for a while (kit::Hold), so that sozu's write towards that peer blocks in the middle of a
+/// DATA frame while DATA of the same peer keeps arriving: the WINDOW_UPDATE / PING ACK frames sozu owes must wait for
+/// the frame boundary (spec/H2Wire.tla), otherwise the receiver finds foreign bytes in the body or loses the framing.
+///   variant 0, 1: the BACKEND connection (h1->h2c, h2->h2c): one big upload; the h2c backend answers early (paced
+///                 response frames during the hold) and reads the request late
+///   variant 2, 3: the CLIENT connection (h2->h1, h2->h2c): stream 0 downloads a big body that the client does not read
+///                 during the hold, stream 1 uploads (paced) meanwhile
+/// Windows are wide open everywhere (nothing but the socket blocks: the head-of-line finding needs window-blocked
+/// streams) and frame counts stay in the hundreds (far from the iteration budget).
+pub fn make_duplex_plan(run: u64, seed: u64, k: usize) -> RunPlan {
+    let mut rng = Rng(seed ^ 0xD0_C01);
+    let variant = k % 4;
+    let wide = |rcvbuf: Option<usize>| ReadPlan { rchunk: 65536, rdelay_us: 0, rcvbuf, h2_window: 1 << 30, h2_grant: 1 << 20, h2_grant_delay_us: 0 };
+    let msg = |size: u64, wchunk: usize, every: u64, pause_us: u64, rng: &mut Rng| MsgPlan {
+        size, framing: Framing::Cl, h2_cl: rng.chance(1, 2), h2_pad: false, h2_sep_end: rng.chance(1, 4), wchunk, wpause_every: every, wpause_us: pause_us, small_chunks: false, abort_at: None };
+    let big = rng.pick(&[5_000_000u64, 6_000_000, 7_000_003]);
+    let small = rng.pick(&[30_000u64, 48_000, 64_000]);
+    let piece = rng.pick(&[1_000u64, 3_000, 3_000, 9_000]);
+    let hold = Hold { after_bytes: rng.pick(&[60_000u64, 100_000, 300_000]), ms: rng.pick(&[500u64, 650, 800]) };
+    // the slow side of the duplex exchange: `piece` bytes every 40 ms - a dozen frames or more during the hold
+    let mut p = if variant < 2 {
+        let front_h2 = variant == 1;
+        let mut req = msg(big, 1 << 20, 0, 0, &mut rng);
+        if !front_h2 {
+            req.framing = rng.pick(&[Framing::Cl, Framing::Chunked]);
+        }
+        let resp = msg(small, piece as usize, piece, 40_000, &mut rng);
+        let streams = vec![StreamPlan { idx: 0, req, resp, backend_read: wide(None), client_read: wide(None), early_resp: true }];
+        RunPlan { run, seed, front_h2, back_h2: true, back_variant: 2, second_wave: false, streams, client_hold: None, backend_hold: Some(hold), ping_every: 0 }
+    } else {
+        let back_h2 = variant == 3;
+        let down = StreamPlan { idx: 0, req: msg(0, 65536, 0, 0, &mut rng), resp: msg(big, 1 << 20, 0, 0, &mut rng), backend_read: wide(None),
+                                client_read: wide(Some(DUPLEX_RCVBUF)), early_resp: false };
+        let up = StreamPlan { idx: 1, req: msg(small, piece as usize, piece, 40_000, &mut rng), resp: msg(rng.pick(&[10u64, 2_000]), 65536, 0, 0, &mut rng),
+                              backend_read: wide(None), client_read: wide(Some(DUPLEX_RCVBUF)), early_resp: false };
+        RunPlan { run, seed, front_h2: true, back_h2, back_variant: if back_h2 { 2 } else { 0 }, second_wave: false, streams: vec![down, up],
+                  client_hold: Some(hold), backend_hold: None, ping_every: 0 }
+    };
+    if rng.chance(1, 2) {
+        p.ping_every = rng.pick(&[7_000u64, 20_000]);
+    }
+    if !p.back_h2 {
+        for s in p.streams.iter_mut() {
+            s.resp.framing = rng.pick(&[Framing::Cl, Framing::Chunked]);
         }
     }
     fix_plan(&mut p);
